@@ -113,6 +113,8 @@ class UDSServer(ABC):
         if (
             self._is_sub_function_request(request)
             and request.service_id != UDSIsoServices.RoutineControl
+            # Without a sub function byte there is nothing to check (cf. default_response_if_missing_sub_function)
+            and len(request.pdu) > 1
         ):
             supported_in_active_session = False
             supported_in_other_session = False
